@@ -277,6 +277,14 @@ func (b *Batch) flushStagedAndUpdateFile() error {
 
 // 刷新缓存
 func (b *Batch) flushStaged() error {
+	// 暂存数据无法放入当前活跃文件的剩余空间时, 先切换活跃文件, 保证数据文件不超过容量上限
+	if len(b.staged) > 0 && b.db.activeFile.Size() > 0 &&
+		b.db.activeFile.Size()+b.cachedDataSize+maxFinRecord > b.db.options.DataFileSize {
+		if err := b.db.sync(); err != nil {
+			return err
+		}
+	}
+
 	// 顺序遍历暂存数据依次追加磁盘
 	for _, record := range b.staged {
 		record.BatchID = uint64(b.batchID)
@@ -301,6 +309,8 @@ func (b *Batch) flushStaged() error {
 
 	// 追加操作全部完成后, 更新索引
 	for i, record := range b.staged {
+		// 维护总数据量
+		b.db.totalSize += int64(dataPos[i].Size)
 		var pos *datafile.DataPos
 		if record.Type == datafile.LogRecordDeleted {
 			pos = b.db.index.Delete(record.Key)
